@@ -97,11 +97,28 @@ def detect(patch, props, stages="native", tier="quick", seed="1"):
             t0 = time.time()
             rc, out = sh("./check %s --tier %s" % (p, tier), cwd=VERIF, env=env, timeout=7200)
             sigs = re.findall(r"^\s+\[\w+\] ([^ ]+): ", out, re.M)
-            res[p] = {"exit": rc, "violations": len(re.findall(r"^VIOLATION", out, re.M)), "signatures": sorted(set(sigs))[:6],
+            replay_ok = None
+            m = re.search(r"^VIOLATION property=\S+ replay=(\S+)", out, re.M)
+            if m and os.path.exists(m.group(1)):
+                # the replay command must reproduce the violation on the changed tree ...
+                keep = m.group(1) + ".kept"
+                shutil.copy(m.group(1), keep)
+                rc2, out2 = sh("./check %s --replay %s" % (p, keep), cwd=VERIF, env=env, timeout=3600)
+                replay_ok = {"with_change_exit": rc2}
+                res.setdefault("_replays", []).append((p, keep))
+            res[p] = {"exit": rc, "violations": len(re.findall(r"^VIOLATION", out, re.M)), "signatures": sorted(set(sigs))[:6], "replay": replay_ok,
                       "inconclusive": "INCONCLUSIVE" in out, "wall_s": round(time.time() - t0, 1),
                       "tail": out[-500:] if rc not in (0, 1) else ""}
     finally:
         sh("git checkout -- .", cwd=REPO)
+        # ... and be silent on the restored tree
+        for p, keep in res.pop("_replays", []):
+            env = dict(os.environ)
+            if stages:
+                env["VERIF_STAGES"] = stages
+            rc3, out3 = sh("./check %s --replay %s" % (p, keep), cwd=VERIF, env=env, timeout=3600)
+            if isinstance(res.get(p), dict) and res[p].get("replay") is not None:
+                res[p]["replay"]["restored_exit"] = rc3
         rc, out = sh("git status --porcelain", cwd=REPO)
         if out.strip():
             res["RESTORE_PROBLEM"] = out
